@@ -35,6 +35,11 @@ func unitSketch(args []string, out *bufio.Writer) {
 			}
 		}
 		nops := 50 + r.intn(1500)
+		// a key recorded n times has an estimate of at least min(n, 15) under every representation of that key (keys are
+		// compared with ==: +0.0 and -0.0, equal strings from different allocations, ...)
+		for _, l := range otter.VerifSketchEqualKeys(1+r.intn(20), pick(r, []uint64{8, 64, 1000})) {
+			fmt.Fprintln(out, l)
+		}
 		// frequency before initialisation
 		fmt.Fprintf(out, "freq %d => %d\n", 0, s.Frequency(0))
 		s.Increment(0)
